@@ -34,6 +34,13 @@ class C11(Harness):
         out.append({'feat': 'full', 'sep': 'U', 'gen': 'alpha', 'alphabet': ALPHA[:8] + ALPHA[14:15], 'n': 3 if q else 4})
         out.append({'feat': 'full', 'sep': 'U', 'gen': 'alpha', 'alphabet': ALPHA[:3] + ALPHA[8:], 'n': 3 if q else 4})
         out.append({'feat': 'full', 'sep': 'U', 'gen': 'alpha', 'alphabet': [' ', 'a', '-', '­'] + COLLIDE, 'n': 3 if q else 4})
+        # paragraph-sized lines: symbolic positions (ASCII separator), alphabet positions (Unicode separator)
+        LT = ['The qu?ck brown-f?x  jumps ?ver', '\x1b[31mre?\x1b[0m gr?en \x1b]8;;u\x07l?nk\x1b]8;;\x07 x',
+              'x? \u4f60\u597d?\u4e16\u754c ab\u0301c ?z', ' ?a  b? ']
+        for t in LT:
+            for feat in ('full', 'nd'):
+                out.append({'feat': feat, 'sep': 'A', 'gen': 'tmpl', 'tmpl': t})
+            out.append({'feat': 'full', 'sep': 'U', 'gen': 'atmpl', 'tmpl': t, 'alphabet': ALPHA[:8] if q else ALPHA})
         if not q:
             out.append({'feat': 'full', 'sep': 'U', 'gen': 'alpha', 'alphabet': [' ', 'a', '-', '­', '你', '\x1b[m'], 'n': 6})
             out.append({'feat': 'full', 'sep': 'U', 'gen': 'alpha', 'alphabet': ALPHA, 'n': 4})
@@ -47,7 +54,17 @@ class C11(Harness):
                 % (4 if q else 6, 3 if q else 4, 3 if q else 6, ALPHA))
 
     def run(self, I, cfg):
-        if cfg['gen'] == 'alpha':
+        if cfg['gen'] == 'tmpl':
+            line = gen_tmpl(I, cfg['tmpl'], exclude=())
+        elif cfg['gen'] == 'atmpl':
+            # template whose '?' positions fork over a stated alphabet (the text is concrete on every path, as the
+            # Unicode separator needs)
+            chars = []
+            for ch in cfg['tmpl']:
+                tok = cfg['alphabet'][I.choose(len(cfg['alphabet']), 'alpha')] if ch == '?' else ch
+                chars.extend((ord(c), utf8len(ord(c))) for c in tok)
+            line = Txt(chars)
+        elif cfg['gen'] == 'alpha':
             line = gen_alpha(I, cfg['n'], cfg['alphabet'], lenvar=True)
         else:
             line = gen_text(I, cfg['n'], 'c', (1,) if cfg['gen'] == 'sym1' else (1, 2, 3, 4), lenvar=True)
